@@ -155,6 +155,33 @@ def check_prepare(ctx, top):
                         at = LinEv().ev(pre.slice.upper)
                         if at != Lin.var("|%s|" % lst):
                             probs.append("measure_qubits inserts the newest register (the largest index) at position %r of `%s`, not at its end" % (at, lst))
+            # every other writer of the list, in the layer loop and in the helpers
+            for fnx in [top] + [f for f in ast.walk(top) if isinstance(f, ast.FunctionDef) and f is not fn and f is not top]:
+                for st in (own for own in ast.walk(fnx)):
+                    tgts = []
+                    if isinstance(st, ast.Assign):
+                        tgts = [t for tt in st.targets for t in (tt.elts if isinstance(tt, ast.Tuple) else [tt])]
+                    elif isinstance(st, ast.AugAssign):
+                        tgts = [st.target]
+                    for t in tgts:
+                        if isinstance(t, ast.Subscript) and ast.unparse(t.value) == lst:
+                            probs.append("`%s` overwrites entries of `%s` in place" % (ast.unparse(st)[:60], lst))
+                        elif isinstance(t, ast.Name) and t.id == lst and isinstance(st, ast.Assign) and fnx is top:
+                            v = st.value
+                            ps2 = []
+
+                            def flat3(e):
+                                if isinstance(e, ast.BinOp) and isinstance(e.op, ast.Add):
+                                    flat3(e.left)
+                                    flat3(e.right)
+                                else:
+                                    ps2.append(e)
+                            flat3(v)
+                            removal = all(isinstance(p, ast.Subscript) and isinstance(p.slice, ast.Slice) and ast.unparse(p.value) == lst for p in ps2)
+                            helper = isinstance(v, ast.Call) and isinstance(v.func, ast.Name) and v.func.id in ("prepare_qubits", "prepare_bits", "measure_qubits")
+                            init = isinstance(v, (ast.List, ast.Tuple)) or (isinstance(st.targets[0], ast.Tuple) and isinstance(v, ast.Tuple))
+                            if not (removal or helper or init):
+                                probs.append("`%s` is not a removal of a segment nor the result of a helper" % ast.unparse(st)[:60])
             ctx.ob("R13.7", "%s.to_tk.%s:sorted-%s" % (TK, hname, lst), not probs, found="; ".join(sorted(set(probs))) or "every writer of `%s` keeps it increasing" % lst,
                    required="`%s` is strictly increasing whenever %s splits it by value and renames registers" % (lst, hname), mod=TK, node=fn, sig="sorted:" + lst)
 
@@ -423,6 +450,16 @@ def check_rename_units(ctx):
     ctx.ob("R13.11", q + ":simultaneous", not bad, found=["`%s` is read while / after `%s` writes" % b for b in bad][:3] or "all reads of the old post-selection precede the writes",
            required="a renaming i -> j -> k of neighbouring post-selected bits must not read an entry that was just written (the new keys are computed first, then old keys deleted, then the update)", mod=TK, node=fn,
            sig="rename-simultaneous")
+    # which renamed units carry a post-selection: bits of the default register only (swap() goes through a temporary unit of another register with index 0)
+    comp = next((x for x in ast.walk(fn) if isinstance(x, (ast.ListComp, ast.GeneratorExp, ast.SetComp)) and "post_selection" in ast.unparse(x) and x.generators[0].ifs), None)
+    ctx.need(comp is not None, "rename_units does not select the post-selected units among the renamed ones")
+    conj = []
+    for c_ in comp.generators[0].ifs:
+        conj += c_.values if isinstance(c_, ast.BoolOp) and isinstance(c_.op, ast.And) else [c_]
+    by_reg = any(isinstance(c_, ast.Compare) and len(c_.ops) == 1 and isinstance(c_.ops[0], ast.Eq) and any(isinstance(a, ast.Attribute) and a.attr == "reg_name" for a in ast.walk(c_)) for c_ in conj)
+    by_idx = any(isinstance(c_, ast.Compare) and isinstance(c_.ops[0], ast.In) and ast.unparse(c_.comparators[0]) == "self.post_selection" for c_ in conj)
+    ctx.ob("R13.11", q + ":units", by_reg and by_idx, found=[ast.unparse(c_) for c_ in conj], required="a renamed unit carries a post-selection when it is a bit of the default register whose index is a key of post_selection "
+           "(index alone also matches Bit('tmp', 0))", mod=TK, node=comp, sig="rename-units-register")
     sup = [x for x in ast.walk(fn) if isinstance(x, ast.Call) and ast.unparse(x.func) == "super().rename_units"]
     ctx.ob("R13.11", q + ":delegates", len(sup) == 1 and [ast.unparse(a) for a in sup[0].args] == [fn.args.args[1].arg], found=[ast.unparse(x) for x in sup], required="the units themselves are renamed by pytket with the same mapping",
            mod=TK, node=fn, sig="rename-delegates")
